@@ -679,14 +679,20 @@ def slide_numbering(ctx):
         n, k, j = rng.randint(1, 5), rng.randint(0, 3), rng.randint(0, 4)
         if it % 6 == 0:
             n = rng.randint(10, 13)      # two-digit positions and numbers: "slide10" sorts before "slide2" as a string
+        ordered = it % 6 == 1
+        if ordered:
+            # nothing to rename: the listed slides are slide1..n already, the slide parts the list no longer mentions carry
+            # the numbers right after them (what deleting the LAST slides' p:sldId elements leaves behind)
+            k, j = max(k, 1), max(j, 1)
         prs = Presentation()
         for _i in range(n + k):
             prs.slides.add_slide(prs.slide_layouts[6])
-        for s_, num in zip(list(prs.slides), rng.sample(range(1, 15 if n < 10 else 25), n + k)):
+        nums = list(range(1, n + k + 1)) if ordered else rng.sample(range(1, 15 if n < 10 else 25), n + k)
+        for s_, num in zip(list(prs.slides), nums):
             s_.part.partname = PackURI("/ppt/slides/slide%d.xml" % num)
         lst = prs.part._element.sldIdLst
         for _i in range(k):
-            lst.remove(lst[rng.randrange(len(lst))])       # the relationship (and the part) stays
+            lst.remove(lst[-1] if ordered else lst[rng.randrange(len(lst))])       # the relationship (and the part) stays
         b = io.BytesIO(); prs.save(b)
         prs = Presentation(io.BytesIO(b.getvalue()))
         news = []
